@@ -279,7 +279,50 @@ func (f *STFS) Initialize(rootProposal string, rootPerm os.FileMode) (root strin
 		return "", err
 	}
 
+	// The index might reflect only a part of the tape, i.e. after a crash between appending a record and indexing it.
+	// Index whatever follows the last indexed record, like every write operation does; whatever can't be indexed
+	// (i.e. an incomplete last record) is left alone
+	if !f.readOnly {
+		f.catchUpWithoutLocking()
+	}
+
 	return existingRoot, nil
+}
+
+func (f *STFS) catchUpWithoutLocking() {
+	lastIndexedRecord, lastIndexedBlock, err := f.metadata.Metadata.GetLastIndexedRecordAndBlock(context.Background(), f.readOps.GetPipes().RecordSize)
+	if err != nil {
+		return
+	}
+
+	reader, err := f.readOps.GetBackend().GetReader()
+	if err != nil {
+		return
+	}
+	defer f.readOps.GetBackend().CloseReader()
+
+	_ = recovery.Index(
+		reader,
+		f.readOps.GetBackend().MagneticTapeIO,
+		f.readOps.GetMetadata(),
+		f.readOps.GetPipes(),
+		f.readOps.GetCrypto(),
+
+		int(lastIndexedRecord),
+		int(lastIndexedBlock),
+		false,
+		false,
+		1, // Ignore the first header, which is the last header which we already indexed
+
+		func(hdr *tar.Header, i int) error {
+			return encryption.DecryptHeader(hdr, f.readOps.GetPipes().Encryption, f.readOps.GetCrypto().Identity)
+		},
+		func(hdr *tar.Header, isRegular bool) error {
+			return signature.VerifyHeader(hdr, isRegular, f.readOps.GetPipes().Signature, f.readOps.GetCrypto().Recipient)
+		},
+
+		f.onHeader,
+	)
 }
 
 func (f *STFS) Mkdir(name string, perm os.FileMode) error {
